@@ -74,6 +74,11 @@ theorem jump_patching_as_modelled :
       Gen.calcBackwardJumpBody = "{ offset := len(c.bytecode) + 1 + 2 - to if offset > math.MaxUint16 { panic(_) } return encode(uint16(offset)) }") := by
   decide +kernel
 
+/-- the current tree has the guard (fix ba2f082): this is the fact that discharges the `jumpGuard = true`
+    hypotheses of `compile_wfStatic_guarded` and of C01's `run_conforms_guarded` / `eval_source_conforms_guarded`;
+    a change that removes the guard re-opens the truncation defect and breaks this theorem -/
+theorem offset_guard_present : Gen.jumpGuard = true := by decide
+
 /-! ### decoding inverts encoding -/
 
 /-- `decode ∘ encode = id` for operands that fit 16 bits (operand-less instructions carry `arg = 0`) -/
